@@ -205,12 +205,20 @@ def drive(det, model, pairs, kw, ctx, case, check_sims=True, label="seq"):
     det._sim_bounds = wrapper
     trace = []
     drifts = 0
+    # the same 0/1 labels as Python ints, as booleans, or as numpy bool / 1-element array (the confusion cell must not depend on it)
+    label_mode = len(pairs) % 3 if label == "seq" else 0
+    ctx.count("label_mode:%d" % label_mode)
     with rngtap.Tap() as tap:
         tapref["tap"] = tap
         for i, (yt, yp) in enumerate(pairs):
             np.random.seed(rngtap.seed_for(case.get("seed_key", case["id"]), i))
             del calls[:]
-            det.update(yt, yp)
+            if label_mode == 1:
+                det.update(bool(yt), bool(yp))
+            elif label_mode == 2:
+                det.update(np.bool_(yt), np.array([yp]))
+            else:
+                det.update(yt, yp)
             st = det.drift_state
             base = dict(params=kw, pairs=pairs[: i + 1], step=i)
             err = model.update(yt, yp, [(c[0], c[1], c[2]) for c in calls])
